@@ -1,6 +1,7 @@
 import QProofs.C04
 import QProofs.C04Psd
 import Mathlib.Logic.Equiv.Fin.Basic
+import Mathlib.LinearAlgebra.Matrix.NonsingularInverse
 /-! bridge of the inequality-projection model (`clipMat`, `matOfVec`, `coeffs`, `truncate`) at `R = ℝ`, `K = ℂ`
 to the Mathlib statements of `QProofs.C04Psd`. -/
 open Matrix
@@ -113,6 +114,109 @@ theorem orthoN_get (B : Vector (Mat ℂ d d) n) (hB : Psd.OrthoN (basisM B)) (a 
 
 
 end kron
+
+/-! ### completeness of d² orthonormal Hermitian matrices; Hermitian families -/
+end QM.C04
+
+namespace QM.Psd
+open scoped ComplexOrder
+open Finset
+variable {d : Nat}
+
+theorem trace_conj_mul' (A B : Matrix (Fin d) (Fin d) ℂ) :
+    (Aᴴ * B).trace = ∑ i, ∑ j, star (A i j) * B i j := by
+  simp only [Matrix.trace, Matrix.diag, Matrix.mul_apply, Matrix.conjTranspose_apply]
+  rw [Finset.sum_comm]
+
+/-- `d²` orthonormal `d × d` matrices are complete (dimension count: a left inverse of a square matrix is a right inverse) -/
+theorem complete_of_orthoN (B : Fin (d * d) → Matrix (Fin d) (Fin d) ℂ) (hB : OrthoN B) (i j k l : Fin d) :
+    ∑ a, B a i j * star (B a k l) = if (k, l) = (i, j) then 1 else 0 := by
+  let G : Matrix (Fin (d * d)) (Fin d × Fin d) ℂ := Matrix.of fun a p => B a p.1 p.2
+  let Gs : Matrix (Fin d × Fin d) (Fin (d * d)) ℂ := Matrix.of fun p a => star (B a p.1 p.2)
+  have h1 : G * Gs = 1 := by
+    ext a b
+    have := hB b a
+    rw [trace_conj_mul'] at this
+    simp only [G, Gs, Matrix.mul_apply, Fintype.sum_prod_type, Matrix.one_apply, Matrix.of_apply]
+    rw [show (if a = b then (1 : ℂ) else 0) = if b = a then 1 else 0 by simp [eq_comm]]
+    rw [← this]
+    apply Finset.sum_congr rfl; intro x _
+    apply Finset.sum_congr rfl; intro y _
+    ring
+  have h2 : Gs * G = 1 := (mul_eq_one_comm_of_equiv finProdFinEquiv.symm).1 h1
+  have := congrFun (congrFun h2 (k, l)) (i, j)
+  simp only [Gs, G, Matrix.mul_apply, Matrix.one_apply, Matrix.of_apply] at this
+  rw [← this]
+  apply Finset.sum_congr rfl; intro a _; ring
+
+theorem trace_real_of_hermitian (A H : Matrix (Fin d) (Fin d) ℂ) (hA : A.IsHermitian) (hH : H.IsHermitian) :
+    (starRingEnd ℂ) ((Aᴴ * H).trace) = (Aᴴ * H).trace := by
+  rw [starRingEnd_apply, ← Matrix.trace_conjTranspose, Matrix.conjTranspose_mul, Matrix.conjTranspose_conjTranspose,
+    hH.eq, hA.eq, Matrix.trace_mul_comm]
+
+/-- completeness for the real coefficient maps: every Hermitian matrix is reproduced from its real coefficients in an
+orthonormal Hermitian family of `d²` matrices -/
+theorem synth_coeff_of_orthoN (B : Fin (d * d) → Matrix (Fin d) (Fin d) ℂ) (hB : OrthoN B)
+    (hBh : ∀ a, (B a).IsHermitian) (H : Matrix (Fin d) (Fin d) ℂ) (hH : H.IsHermitian) :
+    synth B (coeff B H) = H := by
+  ext i j
+  have hre := fun a => RCLike.conj_eq_iff_re.1 (trace_real_of_hermitian (B a) H (hBh a) hH)
+  have e1 : (synth B (coeff B H)) i j = ∑ a, ((B a)ᴴ * H).trace * B a i j := by
+    simp only [synth, Matrix.sum_apply, Matrix.smul_apply, smul_eq_mul]
+    apply Finset.sum_congr rfl; intro a _
+    rw [← hre a]; rfl
+  rw [e1]
+  have e2 : ∀ a, ((B a)ᴴ * H).trace * B a i j = ∑ k, ∑ l, H k l * (B a i j * star (B a k l)) := by
+    intro a
+    rw [trace_conj_mul', Finset.sum_mul]
+    apply Finset.sum_congr rfl; intro k _
+    rw [Finset.sum_mul]
+    apply Finset.sum_congr rfl; intro l _; ring
+  simp_rw [e2]
+  rw [Finset.sum_comm]
+  have e3 : ∀ k, ∑ a, ∑ l, H k l * (B a i j * star (B a k l)) = ∑ l, H k l * (if (k, l) = (i, j) then 1 else 0) := by
+    intro k
+    rw [Finset.sum_comm]
+    apply Finset.sum_congr rfl; intro l _
+    rw [← Finset.mul_sum, complete_of_orthoN B hB]
+  simp_rw [e3]
+  simp [Prod.ext_iff, ite_and, Finset.sum_ite_eq']
+end QM.Psd
+
+namespace QM.C04
+open QM.Psd
+open scoped ComplexOrder
+variable {n d : Nat}
+
+/-- every basis element is Hermitian -/
+def HermB (B : Vector (Mat ℂ d d) n) : Prop := ∀ a, (basisM B a).IsHermitian
+
+theorem basisM_mk (B : Vector (Mat ℂ d d) n) (k : Nat) (h : k < n) (i j : Fin d) :
+    basisM B ⟨k, h⟩ i j = (B[k]'h).get i j := by simp [basisM]
+
+theorem coeffs_get (B : Vector (Mat ℂ d d) n) (M : Mat ℂ d d) (a : Fin n) :
+    (coeffs B M).get a = ((basisM B a)ᴴ * M.toM).trace := by
+  simp only [coeffs, Vec.get_ofFn, fsum_eq_sum, basisM, Matrix.trace, Matrix.diag,
+    Matrix.mul_apply, Matrix.conjTranspose_apply, conj_def, Mat.toM_apply]
+  rw [Finset.sum_comm]
+
+/-- the Kronecker (Choi) family of a Hermitian family is Hermitian -/
+theorem hermB_kron (B : Vector (Mat ℂ d d) n) (hH : HermB B) : HermB (kronBasis B) := by
+  intro c
+  have hn : 0 < n := pos_of_lt_mul c.isLt
+  ext i j
+  obtain ⟨p, rfl⟩ := finProdFinEquiv.surjective i
+  obtain ⟨q, rfl⟩ := finProdFinEquiv.surjective j
+  rw [Matrix.conjTranspose_apply, kron_entry', kron_entry']
+  have ha := congrFun (congrFun (hH ⟨c.val / n, (Nat.div_lt_iff_lt_mul hn).2 c.isLt⟩) p.1) q.1
+  have hb := congrFun (congrFun (hH ⟨c.val % n, Nat.mod_lt _ hn⟩) q.2) p.2
+  rw [Matrix.conjTranspose_apply, basisM_mk, basisM_mk] at ha hb
+  rw [star_mul', star_star, ha, ← hb]
+
+theorem rabs_eq_abs (x : ℝ) : rabs x = |x| := by
+  unfold rabs; split
+  · rename_i h; rw [abs_of_neg h]
+  · rename_i h; rw [abs_of_nonneg (not_lt.1 h)]
 
 /-! a concrete instance used for the non-vacuity examples of QProps.C04 -/
 
